@@ -79,6 +79,11 @@ impl Conn {
     pub fn head_seen(&self) -> bool {
         !matches!(self.st, St::Head)
     }
+    /// the client announced `Expect: 100-continue` and is (legitimately) waiting for the interim response before it
+    /// sends the body
+    pub fn wants_continue(&self) -> bool {
+        self.head_seen() && !self.complete() && self.req.body.is_empty() && self.req.header("expect").map(|v| v.eq_ignore_ascii_case("100-continue")).unwrap_or(false)
+    }
 
     pub fn feed(&mut self, data: &[u8]) {
         self.req.raw_len += data.len();
